@@ -37,6 +37,11 @@ type refineCheck struct {
 	// nontrivial reports whether the world exercised the property, and keys
 	// for the distinct-case measure.
 	nontrivial func(w *world.World, l *model.Ledger) []string
+	// post inspects the finished model run for property-specific violations
+	// that are not balance mismatches.
+	post func(env *Env, w *world.World, mr *ModelRun) *Violation
+	// atTip runs while the daemon is alive and parked at the tip (API access).
+	atTip func(env *Env, w *world.World, r *sim.Replica, mr *ModelRun) *Violation
 }
 
 func (c *refineCheck) ID() string    { return c.id }
@@ -128,7 +133,12 @@ func (c *refineCheck) Run(env *Env, sc *Scenario) (*Violation, error) {
 	var viol *Violation
 	var rerr error
 	berr := env.Bubble(func() {
-		mr, err := modelRun(env, w, c.opt, restarts)
+		var tipViol *Violation
+		mr, err := modelRun(env, w, c.opt, restarts, func(r *sim.Replica, mr *ModelRun) {
+			if c.atTip != nil && len(mr.Mismatches) == 0 && mr.Ambiguous == 0 {
+				tipViol = c.atTip(env, w, r, mr)
+			}
+		})
 		if err != nil {
 			rerr = err
 			return
@@ -149,6 +159,15 @@ func (c *refineCheck) Run(env *Env, sc *Scenario) (*Violation, error) {
 			}
 			viol = &Violation{Prop: c.id, Oracle: "refinement", Signature: mismatchSig(m),
 				Detail: fmt.Sprintf("height %d: %s", m.Height, m.Detail)}
+			return
+		}
+		if c.post != nil {
+			if viol = c.post(env, w, mr); viol != nil {
+				return
+			}
+		}
+		if tipViol != nil {
+			viol = tipViol
 			return
 		}
 		if len(mr.Mismatches) > 0 {
